@@ -207,6 +207,27 @@ H_ASSIGN_FILL(h_assign_fill_w, ((void)0))
 H_ASSIGN_SELF(h_assign_self)
 /*@GROUP name=assign_self_m props=C04,C02 kind=K unwind=20 when=7<VF_N<=16@*/
 H_ASSIGN_SELF(h_assign_self_m)
+/*@COMMON@*/
+/* self-aliasing sources for insert and append ([string.insert]/[string.append]: s.insert(i, s), s.insert(i, s.data()+k, c), s.append(s),
+ * s += s and s.append(s.data()+k, c) are well defined: the characters are those the string held BEFORE the call) */
+#define H_INSERT_SELF(NAME) void NAME(void) { ARB(s); VF_INPUT(unsigned char, i); VF_INPUT(unsigned char, k); VF_INPUT(unsigned char, c); VF_INPUT(unsigned char, which); view_t o = view_of(&s); \
+  __CPROVER_assume(i <= o.n && k <= o.n && c <= o.n - k && o.n + c <= N && which <= 3); char old[N + 1]; for (int j = 0; j <= N; ++j) old[j] = o.a[j]; S *r; \
+  if (which == 0) r = s_insert_ptr_n(&s, i, BUF(s) + k, c); else if (which == 1) r = s_insert_sv(&s, i, BUF(s) + k, c); else if (which == 2) r = s_insert_str_pos_n(&s, i, &s, k, c); \
+  else { __CPROVER_assume(k == 0 && c == o.n); r = s_insert_str(&s, i, &s); } \
+  POST(s, sp_splice(o, i, 0, old + k, c), "insert(i, <characters of the string itself>): the inserted characters are the old substring [k, k+c)"); VF_ASSERT(r == &s, "insert returns *this"); VF_REACH(); }
+#define H_APPEND_SELF(NAME) void NAME(void) { ARB(s); VF_INPUT(unsigned char, k); VF_INPUT(unsigned char, c); VF_INPUT(unsigned char, which); view_t o = view_of(&s); \
+  __CPROVER_assume(k <= o.n && c <= o.n - k && o.n + c <= N && which <= 4); char old[N + 1]; for (int j = 0; j <= N; ++j) old[j] = o.a[j]; S *r; \
+  if (which == 0) r = s_append_ptr_n(&s, BUF(s) + k, c); else if (which == 1) r = s_append_sv(&s, BUF(s) + k, c); else if (which == 2) r = s_append_str_pos_n(&s, &s, k, c); \
+  else if (which == 3) r = s_append_range(&s, BUF(s) + k, BUF(s) + k + c); else { __CPROVER_assume(k == 0 && c == o.n); r = s_append_str(&s, &s); } \
+  POST(s, sp_splice(o, o.n, 0, old + k, c), "append(<characters of the string itself>): the appended characters are the old substring [k, k+c)"); VF_ASSERT(r == &s, "append returns *this"); VF_REACH(); }
+/*@GROUP name=insert_self props=C04,C02 kind=K unwind=11 when=VF_N<=7@*/
+H_INSERT_SELF(h_insert_self)
+/*@GROUP name=insert_self_m props=C04,C02 kind=K unwind=20 when=7<VF_N<=16 objbits=13 tier=thorough timeout=3000@*/
+H_INSERT_SELF(h_insert_self_m)
+/*@GROUP name=append_self props=C04,C02 kind=K unwind=11 when=VF_N<=7@*/
+H_APPEND_SELF(h_append_self)
+/*@GROUP name=append_self_m props=C04,C02 kind=K unwind=20 when=7<VF_N<=16 objbits=13 tier=thorough timeout=3000@*/
+H_APPEND_SELF(h_append_self_m)
 /*@GROUP name=assign_buf props=C04,C02,C05 kind=K unwind=11 when=VF_N<=7@*/
 H_ASSIGN_BUF(h_assign_buf, ((void)0))
 /*@GROUP name=assign_buf_m props=C04,C02,C05 kind=K unwind=20 when=7<VF_N<=16@*/
@@ -968,6 +989,7 @@ H_PLUS(h_plus_w, ((void)0))
   VF_ASSERT(s_size(&s) == o.n && s_length(&s) == o.n && s_empty(&s) == (o.n == 0) && s_full(&s) == (o.n == N), "size / length / empty / full follow the view"); CAPACITY_UNCHANGED(s); \
   VF_ASSERT(s_data(&s) == d && s_cdata(&s) == d && s_c_str(&s) == d && s_begin(&s) == d && s_cbegin(&s) == d && s_end(&s) == d + o.n && s_cend(&s) == d + o.n, "data / c_str / begin / end"); \
   VF_ASSERT(s_rbegin_base(&s) == d + o.n && s_rend_base(&s) == d, "rbegin().base() == end(), rend().base() == begin()"); \
+  VF_ASSERT(s_begin_c(&s) == d && s_end_c(&s) == d + o.n && s_crbegin_base(&s) == d + o.n && s_crend_base(&s) == d && s_rbegin_c_base(&s) == d + o.n && s_rend_c_base(&s) == d, "const begin/end, crbegin/crend and const rbegin/rend"); \
   VF_ASSERT(s_view_data(&s) == d && s_view_size(&s) == o.n, "operator string_view: (data(), size())"); \
   VF_ASSERT(s_c_str(&s)[o.n] == 0, "C04: c_str()[size()] == 0"); \
   if (o.n > 0) { VF_ASSERT(s_front(&s) == d && s_cfront(&s) == d && s_back(&s) == d + (o.n - 1) && s_cback(&s) == d + (o.n - 1), "front / back address the first / last character"); } \
